@@ -33,38 +33,39 @@ type Violation struct {
 
 // Partial is what one shard (child process) reports.
 type Partial struct {
-	Evals      int64              `json:"evals"`
-	Distinct   []uint64           `json:"distinct"`
-	Samples    []any              `json:"samples"`
-	Violations []Violation        `json:"violations"`
-	Counters   map[string]int64   `json:"counters"`
+	Evals      int64               `json:"evals"`
+	Distinct   []uint64            `json:"distinct"`
+	Samples    []any               `json:"samples"`
+	Violations []Violation         `json:"violations"`
+	Counters   map[string]int64    `json:"counters"`
 	Sets       map[string][]string `json:"sets"`
-	Inconcl    int64              `json:"inconclusive"`
-	Notes      []string           `json:"notes"`
+	Inconcl    int64               `json:"inconclusive"`
+	Notes      []string            `json:"notes"`
 }
 
 // Run is the per-shard run context handed to a check.
 type Run struct {
-	ID     string
-	Tier   string // quick | thorough
-	Seed   int64
-	Shard  int
-	Shards int
-	Only   int64 // replay: only this case index (-1 = all)
-	Build  string // default | purego | race ...
-	Work   string // scratch directory of this run (under /verif/.bin/work/<ID>)
-	caseLog *os.File
+	ID           string
+	Tier         string // quick | thorough
+	Seed         int64
+	Shard        int
+	Shards       int
+	Only         int64  // replay: only this case index (-1 = all)
+	Build        string // default | purego | race ...
+	Work         string // scratch directory of this run (under /verif/.bin/work/<ID>)
+	caseLog      *os.File
+	caseLogBytes int64
 
-	mu       sync.Mutex
-	evals    int64
-	distinct map[uint64]struct{}
-	samples  []any
-	viol     []Violation
-	counters map[string]int64
-	sets     map[string]map[string]struct{}
-	inconcl  int64
-	notes    []string
-	cur      int64
+	mu         sync.Mutex
+	evals      int64
+	distinct   map[uint64]struct{}
+	samples    []any
+	viol       []Violation
+	counters   map[string]int64
+	sets       map[string]map[string]struct{}
+	inconcl    int64
+	notes      []string
+	cur        int64
 	MaxSamples int
 }
 
@@ -114,7 +115,7 @@ func Hash(parts ...any) uint64 {
 	return h.Sum64()
 }
 
-func (r *Run) Eval() { r.mu.Lock(); r.evals++; r.mu.Unlock() }
+func (r *Run) Eval()         { r.mu.Lock(); r.evals++; r.mu.Unlock() }
 func (r *Run) Evals(n int64) { r.mu.Lock(); r.evals += n; r.mu.Unlock() }
 
 // NonTrivial records a distinct non-trivial case fingerprint.
@@ -451,5 +452,12 @@ func (r *Run) CaseLog(line string) {
 		}
 		r.caseLog = f
 	}
-	_, _ = r.caseLog.WriteString(line + "\n")
+	if r.caseLogBytes > 64<<20 {
+		// only the tail matters (the last "before" line identifies an aborting case): start over
+		_ = r.caseLog.Truncate(0)
+		_, _ = r.caseLog.Seek(0, 0)
+		r.caseLogBytes = 0
+	}
+	n, _ := r.caseLog.WriteString(line + "\n")
+	r.caseLogBytes += int64(n)
 }
